@@ -114,8 +114,9 @@ NewLog(ls, id, type, now, ik, tx, tgt, key, meta) ==
 \* A Numscript request may set transaction metadata (set_tx_meta) and account metadata (set_account_meta)
 \* itself: op.smeta / op.sameta (absent = none).  The request's metadata is added to the script's; a key set
 \* by both is refused (METADATA_OVERRIDE).  Account metadata of the request wins over the script's, key by key.
-ScriptMeta(op) == IF "smeta" \in DOMAIN op THEN op.smeta ELSE NoMeta
-ScriptAMeta(op) == IF "sameta" \in DOMAIN op THEN op.sameta ELSE NoMeta
+IsScript(op) == "script" \in DOMAIN op /\ op.script
+ScriptMeta(op) == IF "smeta" \in DOMAIN op /\ IsScript(op) THEN op.smeta ELSE NoMeta
+ScriptAMeta(op) == IF "sameta" \in DOMAIN op /\ IsScript(op) THEN op.sameta ELSE NoMeta
 MergeAM(s, r) == [a \in (DOMAIN s) \cup (DOMAIN r) |->
                     Merge(IF a \in DOMAIN s THEN s[a] ELSE NoMeta, IF a \in DOMAIN r THEN r[a] ELSE NoMeta)]
 
@@ -124,7 +125,7 @@ CreateTx(ls, op, txid, logid) ==
       ts == IF op.ts = 0 THEN op.now ELSE op.ts
       t0 == [id |-> txid, ps |-> ps, ts |-> ts, ins |-> op.now, ref |-> op.ref, meta |-> Merge(ScriptMeta(op), op.meta),
              rev |-> FALSE, revAt |-> 0, reverts |-> 0, pcv |-> PCV(AllPs(ls.txs) \o ps, ps)]
-  IN IF "vard" \in DOMAIN op /\ op.vard # "" /\ ~op.varok
+  IN IF "vard" \in DOMAIN op /\ IsScript(op) /\ op.vard # "" /\ ~op.varok
      THEN Fail(ls, "compile")   \* an account variable whose value is not a well-formed address: refused before anything runs (C28)
      ELSE IF Len(ps) = 0 THEN Fail(ls, "no_postings")
      ELSE IF ~FundsOK(AllPs(ls.txs), op.ps, 1) THEN Fail(ls, "insufficient")
